@@ -4,7 +4,13 @@ faithfully.
 Engine `desugar`: the REAL parser + `remove_syntactic_sugar` (harness) against
 the extracted Gallina mirror Model.Desugar on the exhaustive matrix
 sugar form x position x arity x named/positional (lib/props/c18gen.py), the
-regression corpus and seeded random combinations.
+regression corpus, seeded random combinations of matrix statements, and seeded
+random programs drawn from the GRAMMAR (lib/props/c18rand.py: any expression in
+any position, tuples nested to depth 4 on either side, anonymous components
+with 0..3 outputs inside tuples inside tuples, named inputs in any order with
+every operator).  For every program the desugared definitions and the report set
+are compared exactly; a difference is classified as decision (accepted vs
+rejected) / message class / report location / expansion.
 
 Oracles for the property itself
  (i)  on the implementation's own output: no Tuple / AnonymousComponent /
@@ -18,6 +24,7 @@ Oracles for the property itself
       source, gives the same findings from the CLI binary as the sugared program,
       modulo positions and generated names.
 """
+import hashlib
 import json
 import os
 import re
@@ -27,6 +34,7 @@ import common
 
 sys.path.insert(0, os.path.dirname(os.path.abspath(__file__)))
 import c18gen  # noqa: E402
+import c18rand  # noqa: E402
 
 SUGAR = ("(tuple ", "(anon ", "(msub ")
 CORPUS = os.path.join(common.VERIF, "corpus", "C18")
@@ -37,23 +45,18 @@ def fields(line):
     return dict(zip(f[0::2], f[1::2]))
 
 
+DEF_HEAD = re.compile(r"\((T|F) (\S+) ")
+
+
 def split_defs(sexp):
-    """Top-level items of `(prog ...)` / `(out ...)` as (kind, name, text)."""
+    """Top-level items of `(prog ...)` / `(out ...)` as (kind, name, text).  Every other
+    node of the wire format starts with a lower-case kind, so `(T ` / `(F ` can only
+    open a definition."""
+    ms = list(DEF_HEAD.finditer(sexp))
     out = []
-    depth = 0
-    start = None
-    for i, ch in enumerate(sexp):
-        if ch == "(":
-            depth += 1
-            if depth == 2:
-                start = i
-        elif ch == ")":
-            if depth == 2:
-                item = sexp[start:i + 1]
-                m = re.match(r"\((T|F) (\S+) ", item)
-                if m:
-                    out.append((m.group(1), m.group(2), item))
-            depth -= 1
+    for i, m in enumerate(ms):
+        end = ms[i + 1].start() - 1 if i + 1 < len(ms) else len(sexp) - 1
+        out.append((m.group(1), m.group(2), sexp[m.start():end]))
     return out
 
 
@@ -78,14 +81,29 @@ def parse_sexp(text):
     return cur[0] if cur else []
 
 
+WF_CACHE = {}
+
+
 def wf_violations(pre):
     """The hypotheses of C18_desugar_never_panics, checked on the parser's output:
     every meta has a file id, log strings are at most 230 bytes, named inputs come
-    with one argument each, definition bodies are blocks."""
+    with one argument each, definition bodies are blocks.  (Checked per definition;
+    the fixed prelude definitions are looked up.)"""
     bad = []
-    if re.search(r"@\d+:\d+:-", pre):
+    for _k, name, text in split_defs(pre):
+        if text not in WF_CACHE:
+            if len(WF_CACHE) > 20000:
+                WF_CACHE.clear()
+            WF_CACHE[text] = wf_violations_def(name, text)
+        bad += WF_CACHE[text]
+    return bad
+
+
+def wf_violations_def(name, text):
+    bad = []
+    if re.search(r"@\d+:\d+:-", text):
         bad.append("a meta without file id")
-    for h in re.findall(r"\(str x([0-9a-f]*)\)", pre):
+    for h in re.findall(r"\(str x([0-9a-f]*)\)", text):
         if len(h) > 460:
             bad.append("a log string of %d bytes" % (len(h) // 2))
 
@@ -97,11 +115,10 @@ def wf_violations(pre):
                     bad.append("an anonymous component with %d names for %d inputs" % (len(x[-1]) - 1, len(sig) - 1))
             for y in x:
                 walk(y)
-    tree = parse_sexp(pre)
-    walk(tree)
-    for d in tree[1:]:
-        if not (isinstance(d[-1], list) and d[-1][0] == "block"):
-            bad.append("definition `%s` whose body is not a block" % d[1])
+    d = parse_sexp(text)
+    walk(d)
+    if not (isinstance(d[-1], list) and d[-1] and d[-1][0] == "block"):
+        bad.append("definition `%s` whose body is not a block" % name)
     return bad
 
 
@@ -348,6 +365,25 @@ def evaluate(ctx, HARNESS_BIN, MODEL_BIN, programs):
     return recs
 
 
+def rep_msgs(rep):
+    return sorted(bytes.fromhex(m).decode(errors="replace") for _c, m in re.findall(r"\(r (\S+) x([0-9a-f]*)", rep or ""))
+
+
+def classify(d, m):
+    """What kind of difference there is between implementation and mirror."""
+    if "panic" in (d["POST"], m.get("POST")):
+        return "panic"
+    di = {(k, n) for k, n, _ in split_defs(d["POST"])}
+    mi = {(k, n) for k, n, _ in split_defs(m.get("POST", ""))}
+    if di != mi:
+        return "decision (accepted vs rejected): " + ", ".join(sorted(n for _k, n in di ^ mi))
+    if rep_msgs(d["REP"]) != rep_msgs(m.get("REP")):
+        return "message class"
+    if d["REP"] != m.get("REP"):
+        return "report location / label"
+    return "expansion"
+
+
 def judge(rec):
     """Oracle (i) on one record. Returns list of failure descriptions."""
     fails = []
@@ -382,20 +418,35 @@ def run(ctx, proofs):
     HARNESS_BIN = common.build_harness("desugar")
     MODEL_BIN = common.build_model("desugar")
     CLI = common.build_cli()
-    programs = corpus_programs() + c18gen.matrix() + random_programs(ctx, 400 if quick else 4000)
-    recs = evaluate(ctx, HARNESS_BIN, MODEL_BIN, programs)
+    rand = c18rand.programs(ctx.rng, 16000 if quick else 160000)
+    rand_info = {lab: (mode, feats) for lab, _s, mode, feats in rand}
+    groups = [("corpus", corpus_programs()), ("matrix", c18gen.matrix()), ("deep", c18rand.deep()),
+              ("random_matrix", random_programs(ctx, 400 if quick else 4000)),
+              ("random_grammar", [(lab, src) for lab, src, _m, _f in rand])]
+    programs = [p for _g, ps in groups for p in ps]
 
     disagreements, failing, spec_diff, wf_fail = [], [], [], []
     stats = {"parse_error": 0, "templates_kept": 0, "templates_rejected": 0, "functions_kept": 0,
              "functions_rejected": 0, "host_kept_with_sugar_input": 0}
+    rstats = {"valid kept": 0, "valid rejected": 0, "wild kept": 0, "wild rejected": 0, "parse_error": 0}
+    rfeat = {}
+    diff_kinds = {}
     kinds = {}
+    rkinds = {}
     nontrivial = set()
-    for rec in recs:
+    labels = []
+    CH = 8000
+    for lo in range(0, len(programs), CH):
+      recs = evaluate(ctx, HARNESS_BIN, MODEL_BIN, programs[lo:lo + CH])
+      for rec in recs:
+        labels.append(rec["label"])
         f = judge(rec)
         if f:
             failing.append({"label": rec["label"], "input": rec["src"], "impl": f, "spec": "sugar-free output, functions with sugar rejected with an error, no panic"})
         if "parse" in rec:
             stats["parse_error"] += 1
+            if rec["label"] in rand_info:
+                rstats["parse_error"] += 1
             continue
         d, m, s = rec["impl"], rec["model"], rec["spec"]
         if rec["roundtrip"] != d["PRE"]:
@@ -404,7 +455,9 @@ def run(ctx, proofs):
         if w:
             wf_fail.append({"label": rec["label"], "input": rec["src"], "what": "; ".join(w)})
         if d["POST"] != m.get("POST") or (d["REP"] != m.get("REP") and d["POST"] != "panic"):
-            disagreements.append({"label": rec["label"], "input": rec["src"], "what": "desugared AST / reports",
+            kind = classify(d, m)
+            diff_kinds[kind.split(":")[0]] = diff_kinds.get(kind.split(":")[0], 0) + 1
+            disagreements.append({"label": rec["label"], "input": rec["src"], "what": "desugared AST / reports: " + kind,
                                   "impl": (d["POST"] + " " + d["REP"])[-600:], "model": (m.get("POST", "") + " " + m.get("REP", ""))[-600:]})
         # (i') the specification agrees with the implementation on every accepted host definition
         pre_defs = {n: t for k, n, t in split_defs(d["PRE"])}
@@ -417,6 +470,12 @@ def run(ctx, proofs):
                 stats[("templates" if n == "T" else "functions") + ("_kept" if kept else "_rejected")] += 1
                 if kept and sug:
                     stats["host_kept_with_sugar_input"] += 1
+                if rec["label"] in rand_info:
+                    mode, feats = rand_info[rec["label"]]
+                    rstats[mode + (" kept" if kept else " rejected")] += 1
+                    for ft in feats:
+                        c = rfeat.setdefault(ft, [0, 0])
+                        c[0 if kept else 1] += 1
                 if n == "T":
                     if kept and spec_defs.get(n) != post_defs[n]:
                         spec_diff.append({"label": rec["label"], "input": rec["src"], "impl": post_defs[n][-500:],
@@ -424,10 +483,13 @@ def run(ctx, proofs):
                     if not kept and n in spec_defs:
                         spec_diff.append({"label": rec["label"], "input": rec["src"], "impl": "rejected: " + d["REP"][-300:],
                                           "spec": spec_defs[n][-500:]})
-        for code, msg in re.findall(r"\(r (\S+) x([0-9a-f]*)", d["REP"]):
-            t = bytes.fromhex(msg).decode(errors="replace")
+        for t in rep_msgs(d["REP"]):
             kinds[t] = kinds.get(t, 0) + 1
-        nontrivial.add((d["POST"] != "panic" and "T" in post_defs, re.sub(r"@\d+:\d+:\d+|_\d+_\d+", "", post_defs.get("T", d["REP"]))[:4000]))
+            if rec["label"] in rand_info:
+                rkinds[t] = rkinds.get(t, 0) + 1
+        nontrivial.add(hashlib.md5(repr((d["POST"] != "panic" and "T" in post_defs,
+                                         re.sub(r"@\d+:\d+:\d+|_\d+_\d+", "", post_defs.get("T", d["REP"]))[:4000])).encode()).digest())
+      del recs
 
     # a difference between the specified expansion and the implementation's output is a failing input of the
     # property itself ("inputs assigned in declaration order or by name, outputs read in declaration order")
@@ -494,14 +556,24 @@ def run(ctx, proofs):
             ctx.violation("proof obligations of C18 no longer check: " + "; ".join(proofs["failures"])[:500],
                           {"broken": "props/C18.v", "failures": proofs["failures"]}, no_input=True)
     ctx.coverage.update({
-        "evaluations": len(recs) + 2 * len(e2e),
+        "evaluations": len(programs) + 2 * len(e2e),
         "distinct_nontrivial": len(nontrivial),
         "rule": "a program is distinct-nontrivial per distinct desugared body of the host template (positions and generated-name suffixes "
                 "erased) or, when it is rejected, per distinct report set",
-        "exhaustive": True,
+        "exhaustive": False,
         "exhaustive_part": "matrix: %d sugar forms x %d positions x {template, function} + %d sugar-free controls x 2 + %d two-statement bodies"
                            % (len(c18gen.FORMS), len(c18gen.POSITIONS), len(c18gen.CONTROLS), 12),
-        "programs": {"corpus": len(corpus_programs()), "matrix": len(c18gen.matrix()), "random": len(recs) - len(corpus_programs()) - len(c18gen.matrix())},
+        "programs": {g: len(ps) for g, ps in groups},
+        "random_grammar": {
+            "what": "lib/props/c18rand.py: bodies of 1-4 statements drawn from the grammar; mode `valid` puts sugar where Circom allows it "
+                    "(tuples nested to depth 4 on either side, anonymous components with 0-3 outputs in tuples in tuples, named inputs "
+                    "permuted with every operator), mode `wild` puts it anywhere (conditions, read indices, call/log/assert/return "
+                    "arguments, declarations, loop headers)",
+            "decisions": rstats,
+            "features_kept_rejected": {k: v for k, v in sorted(rfeat.items())},
+            "report_messages_seen": len(rkinds),
+        },
+        "disagreement_kinds": diff_kinds,
         "input_distribution": stats,
         "report_messages_seen": len(kinds),
         "report_message_histogram": dict(sorted(kinds.items(), key=lambda x: -x[1])[:45]),
@@ -510,7 +582,7 @@ def run(ctx, proofs):
         "spec_vs_impl_differences": len(spec_diff),
         "wf_hypothesis_failures": len(wf_fail),
         "property_failures": len(failing),
-        "samples": [disagreements[0]] if disagreements else [recs[len(recs) // 3]["label"], recs[len(recs) // 2]["label"], e2e[0][0], e2e[len(e2e) // 2][0]],
+        "samples": [disagreements[0]] if disagreements else [labels[len(labels) // 3], labels[len(labels) // 2], labels[-1], e2e[0][0], e2e[len(e2e) // 2][0]],
         "open_statements": OPEN,
     })
     ctx.assumptions += [
